@@ -89,7 +89,8 @@ theorem chunk_faithful_addFlagToMessages (ids : List MessageId) (flag : FlagVal)
     addFlagToMessages factSites ids flag db = Spec.addFlagToMessages ids flag db :=
   addFlag_faithful factSites (site_good "AddFlagToMessages") ids flag db
 
-/-- `RemoveFlagFromMessages` = one `DELETE … WHERE message_id IN (all ids) AND value = flag`. -/
+/-- `RemoveFlagFromMessages` = one `DELETE … WHERE message_id IN (all ids) AND value = flag COLLATE NOCASE`
+    (every spelling of the flag goes). -/
 theorem chunk_faithful_removeFlagFromMessages (ids : List MessageId) (flag : FlagVal) (db : DB) :
     removeFlagFromMessages factSites ids flag db = Spec.removeFlagFromMessages ids flag db :=
   removeFlag_faithful factSites (site_good "RemoveFlagFromMessages") ids flag db
